@@ -377,6 +377,8 @@ def run_history_case(c, extra_cfg=None):
     L = a[0]
     cfgv = a[1:1 + L]
     client, conn, clk = make_client(cfgv, extra_cfg)
+    from harness import wrappers
+    client._verif_wrappers = wrappers.marked(c)      # half of the cases go through the convenience methods where one fits
     pos = 1 + L
     nops = a[pos]
     pos += 1
